@@ -37,6 +37,9 @@ def run(ctx):
     rule_api_domain(ctx)
     rule_container_dispatch(ctx)
     rule_absent_values(ctx)
+    from .regexlang import rule_regex_languages
+    rule_regex_languages(ctx, "C03.regex-language", ["complete"])
+    run.floor("C03.regex-language", 5)
     from .C08 import rule_descends, rule_positional_index, rule_syntax_agreement, rule_truthiness
     rule_truthiness(ctx, rule_id="C03.selector-acceptance")
     rule_positional_index(ctx, rule_id="C03.selector-acceptance")
